@@ -138,23 +138,42 @@ def gen_topology(rng, family=None, c03=True, nframes=None):
         # publishes; only '*' subscribers (or subscribers naming them) may ever see them
         elif n['out'] and rng.random() < 0.3: n['inject_metrics'] = True
         if n['out'] and rng.random() < 0.3: n['inject_filter'] = True
+    for n in nodes:       # ZMQ_LOW_LATENCY: no prefetch request (latency for throughput) - every property must hold either way
+        if n['sources'] and rng.random() < 0.25: n['low_latency'] = True
     return {'family': family, 'nframes': nframes, 'nodes': nodes, 'max_delay_ms': rng.choice([0, 5, 20, 60, 90]),
-            'sub_connect_ms': rng.choice([0, 0, 30, 90, 400]), 'metrics_push': rng.random() < 0.5}     # slow joiner: the publish path of a connection comes up later than its request path
+            'sub_connect_ms': rng.choice([0, 0, 30, 90, 400]), 'metrics_push': rng.random() < 0.5, 'transport': rng.choice(['ipc', 'ipc', 'tcp'])}     # slow joiner: the publish path of a connection comes up later than its request path
+
+
+def transport_addr(topo, s, bind=False):
+    """topologies are written with ipc://<node name> endpoints; topo['transport'] == 'tcp' runs them over tcp endpoints instead (zeromq.py's own address
+    arithmetic: TCP_RE_ADDR, default port, request socket on port + 1): node k binds tcp://*:<5550 + 10 k> (the first one the bare 'tcp://*' = default port)"""
+    if topo.get('transport') != 'tcp' or not s.startswith('ipc://'): return s
+    names = [n['name'] for n in topo['nodes']]
+    rest = s[len('ipc://'):]
+    name = rest
+    for stop in (';', '?'):
+        name = name.split(stop)[0]
+    if name not in names: return s
+    tail = rest[len(name):]
+    k = names.index(name)
+    host = '*' if bind else ('localhost', '127.0.0.1')[k % 2]
+    return f'tcp://{host}' + ('' if k == 0 else f':{5550 + 10 * k}') + tail
 
 
 def build(net, topo, listeners=()):
     objs = {}
     net.M.OUTPUTS_METRICS_PUSH = bool(topo.get('metrics_push', True))      # module constant read from the environment at import, used at call time
     for n in topo['nodes']:
-        nd = mqnet.Node(net, n['name'], n['sources'] or None, [f"ipc://{n['name']}"] if n['out'] else None, mk_behaviour(n['beh']),
+        nd = mqnet.Node(net, n['name'], [transport_addr(topo, s) for s in n['sources']] or None,
+                        [transport_addr(topo, f"ipc://{n['name']}", bind=True)] if n['out'] else None, mk_behaviour(n['beh']),
                         required=n.get('required') or None, work_ms=n['work'], srcs_balance=n.get('srcs_balance', False), outs_balance=n.get('outs_balance', False),
-                        nframes=(topo['nframes'] if not n['sources'] else None),
+                        low_latency=n.get('low_latency'), nframes=(topo['nframes'] if not n['sources'] else None),
                         metrics=(f"ipc://{n['name']}.metrics" if n.get('metrics') else True if n.get('inject_metrics') else None), filt=bool(n.get('inject_filter')))
         nd.evals = []
         nd.sends = []
         objs[n['name']] = nd
     for l in listeners:
-        nd = mqnet.Node(net, l['name'], l['sources'], None, mk_behaviour({'kind': 'sink'}), work_ms=l.get('work', 0))
+        nd = mqnet.Node(net, l['name'], [transport_addr(topo, s) for s in l['sources']], None, mk_behaviour({'kind': 'sink'}), work_ms=l.get('work', 0))
         objs[l['name']] = nd
     return objs
 
